@@ -530,6 +530,8 @@ func (s *SendStream) CancelWrite(errorCode StreamErrorCode) {
 					retransmissionQueue = append(retransmissionQueue, f)
 				} else {
 					f.Data = f.Data[:reliableOffset-f.Offset]
+					// the frame no longer ends at the final size: the stream ends with RESET_STREAM_AT, not with a FIN
+					f.Fin = false
 					retransmissionQueue = append(retransmissionQueue, f)
 				}
 			}
@@ -717,6 +719,8 @@ func (s *sendStreamAckHandler) OnLost(f wire.Frame) {
 		// truncate the frame to the reliable size.
 		if sf.Offset+sf.DataLen() > (*SendStream)(s).reliableOffset() {
 			sf.Data = sf.Data[:(*SendStream)(s).reliableOffset()-sf.Offset]
+			// the frame no longer ends at the final size: the stream ends with RESET_STREAM_AT, not with a FIN
+			sf.Fin = false
 		}
 	}
 
